@@ -510,6 +510,7 @@ def shards(tier: str, seed: int):
             out.append(["seq31", pol, i, 3])
     for i in range(len(MIXED_OPS)):
         out.append(["mixed", "exact", i, 3])
+    out += [["many", api, nt_] for api in ("sync", "async") for nt_ in (17, 40)]
     pairs = []
     for T in ("T1", "T3"):
         ups = [op for op in OPS if op[0] == "unprot" and op[1] == T]
@@ -559,6 +560,40 @@ def run_shard(shard, tier, seed, acc) -> None:
         acc.ev(counter[0])
         acc.nt_counted(counter[0])
         acc.sample({"policy": pol if shard[0] == "seq" else "per operation", "history": [list(op), list(ops[(first + 3) % len(ops)]), list(ops[(first + 7) % len(ops)])]})
+    elif shard[0] == "many":
+        # a long-lived cache that serves MANY triples (one SID per computer, as LAPS does; several L0 periods): after one round of
+        # unprotects through the DC every triple is covered - a second and third round, in other orders, make no RPC at all
+        import dpapi_ng
+
+        _, api, ntr = shard
+        d_ = seams.Drbg(("C10many", seed))
+        rk = w["rk"]
+        trip = [(f"S-1-5-21-1-2-3-{2000 + i}", A - (i % 3)) for i in range(ntr)]
+        blobs = [cms.ref_encrypt(rk, sid, PT, (l0, 3 + i % 5, 5), cek=d_.bytes(32), gcm_nonce_=d_.bytes(12), key_nonce=d_.bytes(32), domain="domain.test", forest="domain.test") for i, (sid, l0) in enumerate(trip)]
+        cache = dpapi_ng.KeyCache()
+        kw = dict(server="dc", username="u", password="p", auth_protocol="ntlm", cache=cache)
+        n = 0
+        for rnd, order in enumerate([list(range(ntr)), list(range(ntr)), list(range(ntr - 1, -1, -1)), [(7 * i) % ntr for i in range(ntr)] if ntr % 7 else list(range(ntr))]):
+            for i in order:
+                dc = refdc.DC([rk], now=NOW)
+                case = ["many", api, ntr, rnd, i]
+                with seams.clock(NOW_FT), transport.network(dc), secctx.scripted_client(_ctx):
+                    try:
+                        v = dpapi_ng.ncrypt_unprotect_secret(blobs[i], **kw) if api == "sync" else vloop.run(dpapi_ng.async_ncrypt_unprotect_secret(blobs[i], **kw))
+                    except Exception as e:  # noqa: BLE001
+                        acc.violate("many.transparency.exception", case, {"exc": repr(e)[:200]})
+                        continue
+                n += 1
+                if bytes(v) != PT:
+                    acc.violate("many.transparency.plaintext", case, {"got": bytes(v)[:20].hex()})
+                if rnd > 0 and dc.returned:
+                    acc.violate("many.economy.repeat-rpc", case, {"triples_on_the_cache": ntr, "round": rnd, "rpcs": len(dc.returned)}, size=ntr * 10 + rnd)
+                acc.outcome("many:rpc" if dc.returned else "many:cached")
+        acc.ev(n)
+        acc.nt_counted(n)
+        acc.states += n
+        acc.transitions += n
+        acc.sample({"triples on one cache": ntr, "rounds": 4, "api": api})
     elif shard[0] == "threads":
         _, pol, ops, bound, coarse, part, parts = shard
         thread_shard(w, acc, pol, [_norm(o) for o in ops], bound, coarse, part, parts)
@@ -572,6 +607,14 @@ def replay(case, seed, acc) -> None:
     w = world(seed)
     acc.ev()
     set_now(31 if case[0] == "seq31" else 12)
+    if case[0] == "many":
+        run_shard(["many", case[1], case[2]], "quick", seed, acc)
+        for kk in list(acc.violations):
+            acc.violations[kk] = [e for e in acc.violations[kk] if e["case"] == case]
+            if not acc.violations[kk]:
+                del acc.violations[kk]
+        acc.violation_count = sum(len(x) for x in acc.violations.values())
+        return
     if case[0] in ("seq", "seq31"):
         import dpapi_ng
 
